@@ -42,6 +42,8 @@ type Scenario struct {
 	// start with Catchup instead of Start and the clock at the start of round StartRound).
 	Prefill    []uint64
 	StartRound uint64
+	// Latency of every RPC in virtual time (default 10 ms; negative: none)
+	Latency time.Duration
 }
 
 type ScenarioResult struct {
@@ -94,6 +96,12 @@ func (sc *Scenario) Run(devs []vrt.Dev, labels bool) *ScenarioResult {
 		}
 		nt := NewNet(k)
 		nt.DropChoice = sc.Drop
+		nt.Latency = sc.Latency
+		if nt.Latency == 0 {
+			nt.Latency = 10 * time.Millisecond
+		} else if nt.Latency < 0 {
+			nt.Latency = 0
+		}
 		res.Net = nt
 		var ref []*common.Beacon
 		for i := 0; i < n; i++ {
@@ -371,6 +379,50 @@ func (sc *Scenario) JudgeTiming(r *ScenarioResult, x *explore.Exec, prefix strin
 					add("early-beacon", "node %d stored round %d at local time %d, before that round's time %d, with only %d fast-clocked members (threshold %d)", i, b.Round, local, t, fast, k.T)
 				}
 			}
+		}
+	}
+}
+
+// JudgeLiveness evaluates C05 at the end of a scenario run (the script's faults are healed by then): every
+// running node's head is the current round of its clock, and every node that was restarted released, after its
+// restart, a partial that an honest peer accepted.
+func (sc *Scenario) JudgeLiveness(r *ScenarioResult, x *explore.Exec, prefix string) {
+	k := sc.Keys
+	if r.Err != nil || r.S.NativeBlock != "" || r.S.ReplayDivergence != "" || r.Net == nil {
+		return
+	}
+	var script []Fault
+	if len(sc.Scripts) > 0 {
+		script = sc.Scripts[r.Script]
+	}
+	add := func(fp, f string, a ...any) {
+		x.Violations = append(x.Violations, explore.Violation{Fingerprint: prefix + "/" + fp, Detail: fmt.Sprintf("%s n=%d t=%d script#%d %v: ", k.SchemeID, k.N, k.T, r.Script, script) + fmt.Sprintf(f, a...)})
+	}
+	want := sc.CurrentRoundAtEnd(r)
+	heads := r.Net.Heads()
+	for i, nd := range r.Net.Nodes {
+		if nd.Down {
+			continue
+		}
+		if heads[i] < want {
+			add("not-caught-up", "at the end of the healed period (round %d has come) node %d's head is %d; heads %v", want, i, heads[i], heads)
+			break
+		}
+	}
+	for _, f := range script {
+		if f.Kind != "restart" {
+			continue
+		}
+		at := time.Unix(common.TimeOfRound(k.Period, k.Genesis, f.AtRound), 0).Add(-500 * time.Millisecond)
+		ok := false
+		for _, d := range r.Net.Ledger {
+			if d.From == f.Node && d.ReceiverOK && d.Valid && !d.SenderNow.Before(at) {
+				ok = true
+				break
+			}
+		}
+		if !ok {
+			add("no-contribution-after-restart", "node %d was restarted at round %d but no partial of it was accepted by a peer afterwards", f.Node, f.AtRound)
 		}
 	}
 }
